@@ -72,6 +72,13 @@ Proof.
   fix IH 1. intros [| |t l|c fs|q t tl a ch|q x ty|m]; cbn [odepth vdepth]; try lia.
   - apply Nat.le_le_succ_r. induction l as [|x l IHl]; [lia|]. pose proof (IH x). lia.
   - apply le_n_S. induction fs as [|[k x] fs IHl]; [lia|]. pose proof (IH x). lia.
+  - apply le_n_S. induction ch as [|x l IHl]; [lia|]. pose proof (IH x). lia.
+Qed.
+
+Lemma odepth_anychild q t tl a ch x : In x ch -> (odepth x < odepth (VAny q t tl a ch))%nat.
+Proof.
+  intros H. cbn [odepth]. apply Nat.lt_succ_r.
+  induction ch as [|y l IHl]; [destruct H|]. destruct H as [->|H]; [lia|]. specialize (IHl H). lia.
 Qed.
 
 Section Gen.
@@ -185,8 +192,18 @@ Section Gen.
   Lemma add_nil_g_false i : add_nil_g false i = i.
   Proof. destruct i; [reflexivity|]. cbn [add_nil_g]. rewrite app_nil_r. reflexivity. Qed.
 
+  (* a generic element (convert_any_element): the text goes before the children *)
+  Fixpoint g_any (x : value) : bitem :=
+    match x with
+    | VAny (Some q) text _ attrs children =>
+        BNode q (map (fun kv => (fst kv, WP (PStr (snd kv)))) attrs)
+              (BData (match text with Some t => WP (PStr t) | None => WNone end) :: map g_any children)
+    | _ => BData WNone
+    end.
+
   Definition g_item (rec : option qname -> value -> bitem) (var : xvar) (x : value) : bitem :=
     match x with
+    | VAny _ _ _ _ _ => g_any x
     | VObj k' _ => add_nil_g (v_nillable var || cnil x) (add_xsi_g (xsi_for var k') (rec (Some (v_qname var)) x))
     | _ => g_prim var x
     end.
@@ -256,7 +273,9 @@ Section Gen.
   (* ---------------------------------------------------------------- metadata facts *)
   Record class_facts (m : xmeta) : Prop := {
     cf_choices : m_choices m = [];
-    cf_wildcards : m_wildcards m = [];
+    cf_wildcards : m_wildcards m = []
+                   \/ exists wv, m_wildcards m = [wv] /\ wf_wild wv = true /\ assoc (v_qname wv) (m_elements m) = None
+                                  /\ assoc (v_qname wv) (m_wrappers m) = None /\ m_text m = None;
     cf_any : m_any_attributes m = [] \/ exists av, m_any_attributes m = [av] /\ wf_anyattr av = true;
     cf_wrappers : forallb (fun e => negb (match assoc (fst e) (m_wrappers m) with Some _ => true | None => false end)
                          && forallb (fun v => match v_wrapper_qname v with
@@ -283,7 +302,10 @@ Section Gen.
     peel H H4. peel H H3. peel H H2.
     constructor.
     - destruct (m_choices m); [reflexivity|discriminate].
-    - destruct (m_wildcards m); [reflexivity|discriminate].
+    - destruct (m_wildcards m) as [|wv [|? ?]]; [left; reflexivity| |discriminate]. right. exists wv.
+      peel H2 G4. peel H2 G3. peel H2 G2. split; [reflexivity|]. split; [exact H2|].
+      destruct (assoc (v_qname wv) (m_elements m)); [discriminate|]. destruct (assoc (v_qname wv) (m_wrappers m)); [discriminate|].
+      destruct (m_text m); [discriminate|]. repeat split.
     - destruct (m_any_attributes m) as [|av [|? ?]]; [left; reflexivity|right; exists av; split; [reflexivity|exact H3]|discriminate].
     - exact H4.
     - exact I.
@@ -303,10 +325,10 @@ Section Gen.
   Proof. unfold wf_class. intros H. peel H H14. exact H14. Qed.
 
   Lemma evars_eq m : wf_class m = true ->
-    get_element_vars m = sort_by_index (flat_map snd (m_elements m) ++ match m_text m with Some t => [t] | None => [] end).
+    get_element_vars m = sort_by_index (m_wildcards m ++ flat_map snd (m_elements m) ++ match m_text m with Some t => [t] | None => [] end).
   Proof.
     intros H. destruct (wf_class_inv m H). unfold get_element_vars.
-    rewrite cf_choices0, cf_wildcards0. reflexivity.
+    rewrite cf_choices0. reflexivity.
   Qed.
 
   Lemma avars_eq m : wf_class m = true ->
@@ -314,11 +336,11 @@ Section Gen.
   Proof. reflexivity. Qed.
 
   Lemma allvars_eq m : wf_class m = true ->
-    get_all_vars m = sort_by_index (m_any_attributes m ++ map snd (m_attributes m) ++ flat_map snd (m_elements m)
+    get_all_vars m = sort_by_index (m_wildcards m ++ m_any_attributes m ++ map snd (m_attributes m) ++ flat_map snd (m_elements m)
                                     ++ match m_text m with Some t => [t] | None => [] end).
   Proof.
     intros H. destruct (wf_class_inv m H). unfold get_all_vars.
-    rewrite cf_choices0, cf_wildcards0. reflexivity.
+    rewrite cf_choices0. reflexivity.
   Qed.
 
   (* an attribute field: declared, or the attribute map *)
@@ -352,16 +374,59 @@ Section Gen.
     apply andb_true_iff in Hx as [Hq Hw]. apply str_eqb_eq in Hq. subst q. split; assumption.
   Qed.
 
+  (* the wildcard field of a class *)
+  Definition is_wildvar (m : xmeta) (var : xvar) : Prop :=
+    m_wildcards m = [var] /\ wf_wild var = true /\ assoc (v_qname var) (m_elements m) = None
+    /\ assoc (v_qname var) (m_wrappers m) = None /\ m_text m = None.
   Lemma wf_class_evar m var : wf_class m = true -> In var (get_element_vars m) ->
     (wf_elem var = true /\ In (v_qname var, [var]) (m_elements m))
-    \/ (m_text m = Some var /\ wf_text var = true /\ m_elements m = []).
+    \/ (m_text m = Some var /\ wf_text var = true /\ m_elements m = [])
+    \/ is_wildvar m var.
   Proof.
     intros H Hin. rewrite (evars_eq m H) in Hin. apply (proj1 (sort_in _ _)) in Hin.
     destruct (wf_class_inv m H).
     apply in_app_or in Hin as [Hin|Hin].
+    { right. right. destruct cf_wildcards0 as [E|[wv [E Hw]]]; rewrite E in Hin; [destruct Hin|].
+      destruct Hin as [<-|[]]. split; [exact E|exact Hw]. }
+    apply in_app_or in Hin as [Hin|Hin].
     - left. apply in_flat_singletons; assumption.
-    - right. destruct (m_text m) as [t|]; [|destruct Hin]. destruct Hin as [->|[]].
+    - right. left. destruct (m_text m) as [t|]; [|destruct Hin]. destruct Hin as [->|[]].
       destruct cf_text0 as [Ht He]. repeat split; assumption.
+  Qed.
+  Lemma text_no_wild m tv : wf_class m = true -> m_text m = Some tv -> m_wildcards m = [].
+  Proof.
+    intros H Ht. destruct (wf_class_inv m H). destruct cf_wildcards0 as [E|[wv [_ [_ [_ [_ Hn]]]]]]; [exact E|congruence].
+  Qed.
+  Lemma wildvar_in m var : wf_class m = true -> is_wildvar m var -> In var (get_element_vars m).
+  Proof. intros H [E _]. rewrite (evars_eq m H), E. apply sort_in. left; reflexivity. Qed.
+  Lemma var_common_w_inv var : var_common_w var = true ->
+    v_init var = true /\ v_mixed var = false /\ True /\ True
+    /\ v_elements var = [] /\ v_wildcards var = [] /\ True /\ True
+    /\ v_index var <> 0.
+  Proof.
+    unfold var_common_w. intros H. peel H H7. peel H H4. peel H H3. peel H H0.
+    apply negb_true_iff in H0, H7. apply N.eqb_neq in H7.
+    destruct (v_elements var); [|discriminate]. destruct (v_wildcards var); [|discriminate].
+    repeat split; assumption.
+  Qed.
+  Lemma wf_wild_inv var : wf_wild var = true ->
+    v_is KWildcard var = true /\ var_common_w var = true /\ v_nillable var = false /\ v_wrapper_qname var = None
+    /\ v_clazz var = None /\ v_tokens_factory var = None /\ v_sequence var = None /\ match_namespace var (v_qname var) = true
+    /\ v_is KText var = false /\ v_is KElement var = false /\ v_is KElements var = false
+    /\ match v_factory var with
+       | None => v_default var = DNone
+       | Some f => f = FList /\ v_default var = DFactoryList
+       end.
+  Proof.
+    unfold wf_wild. intros H. peel H H8. peel H H7. peel H H6. peel H H5. peel H H4. peel H H3. peel H H2. peel H H1.
+    apply negb_true_iff in H2. unfold no_wrapper in H3.
+    destruct (v_wrapper_qname var); [discriminate|]. destruct (v_clazz var); [discriminate|].
+    destruct (v_tokens_factory var); [discriminate|]. destruct (v_sequence var); [discriminate|].
+    repeat (split; [first [assumption|reflexivity]|]).
+    split; [unfold v_is in *; destruct (v_kind var); try discriminate H; reflexivity|].
+    split; [unfold v_is in *; destruct (v_kind var); try discriminate H; reflexivity|].
+    split; [unfold v_is in *; destruct (v_kind var); try discriminate H; reflexivity|].
+    destruct (v_factory var) as [[|]|]; try discriminate H8; destruct (v_default var); try discriminate H8; repeat split.
   Qed.
 
   Lemma in_allvars m var : wf_class m = true ->
@@ -369,9 +434,11 @@ Section Gen.
   Proof.
     intros H Hin. rewrite (allvars_eq m H). apply sort_in.
     destruct Hin as [Hin|Hin].
-    - rewrite (avars_eq m H) in Hin. apply (proj1 (sort_in _ _)) in Hin.
+    - rewrite (avars_eq m H) in Hin. apply (proj1 (sort_in _ _)) in Hin. apply in_or_app. right.
       apply in_app_or in Hin as [Hin|Hin]; [apply in_or_app; left; exact Hin|apply in_or_app; right; apply in_or_app; left; exact Hin].
-    - rewrite (evars_eq m H) in Hin. apply (proj1 (sort_in _ _)) in Hin. apply in_or_app. right. apply in_or_app. right; exact Hin.
+    - rewrite (evars_eq m H) in Hin. apply (proj1 (sort_in _ _)) in Hin.
+      apply in_app_or in Hin as [Hin|Hin]; [apply in_or_app; left; exact Hin|].
+      apply in_or_app. right. apply in_or_app. right. apply in_or_app. right; exact Hin.
   Qed.
 
   (* ---------------------------------------------------------------- instance facts *)
@@ -384,7 +451,7 @@ Section Gen.
   Proof.
     cbn [Fits.fits]. destruct o; try discriminate. intros H.
     apply andb_true_iff in H as [Hc H]. apply N.eqb_eq in Hc. subst c0.
-    destruct (u_meta u cl) as [m|]; [|discriminate]. peel H Hmap. peel H H2. peel H H1. peel H H0. peel H Hcont.
+    destruct (u_meta u cl) as [m|]; [|discriminate]. peel H Hwild. peel H Hmap. peel H H2. peel H H1. peel H H0. peel H Hcont.
     exists fields, m. repeat split.
     - apply (list_eqb_spec str_eqb str_eqb_eq). exact H.
     - intros e He. rewrite forallb_forall in H0. apply H0. exact He.
@@ -397,7 +464,7 @@ Section Gen.
   Proof.
     destruct n; [discriminate|]. cbn [Fits.fits]. destruct o; try discriminate. intros H.
     apply andb_true_iff in H as [Hc H]. apply N.eqb_eq in Hc. subst c0. cbn [cnil]. unfold cls_nillable.
-    destruct (u_meta u cl) as [m|] eqn:Em; [|discriminate]. peel H Hmap. peel H H2. peel H H1. peel H H0. peel H Hcont.
+    destruct (u_meta u cl) as [m|] eqn:Em; [|discriminate]. peel H Hwild. peel H Hmap. peel H H2. peel H H1. peel H H0. peel H Hcont.
     intros Hn. rewrite Hn in Hcont. exact Hcont.
   Qed.
 
@@ -405,7 +472,14 @@ Section Gen.
   Lemma fits_mapvar n cl fs m av : fits (S n) cl (VObj cl fs) = true -> u_meta u cl = Some m -> m_any_attributes m = [av] ->
     fits_map ok m av (field_of fs av) = true.
   Proof.
-    cbn [Fits.fits]. intros H Hm Ha. apply andb_true_iff in H as [_ H]. rewrite Hm in H. peel H Hmap. rewrite Ha in Hmap. exact Hmap.
+    cbn [Fits.fits]. intros H Hm Ha. apply andb_true_iff in H as [_ H]. rewrite Hm in H. peel H Hwild. peel H Hmap. rewrite Ha in Hmap. exact Hmap.
+  Qed.
+
+  (* the value of the wildcard field *)
+  Lemma fits_wildvar n cl fs m wv : fits (S n) cl (VObj cl fs) = true -> u_meta u cl = Some m -> m_wildcards m = [wv] ->
+    fits_wild u m wv (field_of fs wv) = true.
+  Proof.
+    cbn [Fits.fits]. intros H Hm Ha. apply andb_true_iff in H as [_ H]. rewrite Hm in H. peel H Hwild. rewrite Ha in Hwild. exact Hwild.
   Qed.
 
   Lemma getattr_field cl fs m var :
@@ -790,6 +864,60 @@ Section Gen.
     unfold v_tokens. rewrite Htf. reflexivity.
   Qed.
 
+  (* the same for a wildcard field *)
+  Definition kind_wild (var : xvar) : Prop := v_is KText var = false /\ v_is KElements var = false.
+  Lemma run_value_single_w f var x :
+    v_mixed var = false -> kind_wild var -> v_tokens_factory var = None -> v_factory var = None ->
+    run c u ign (S f) (CValue x var) = run c u ign f (CAnyType x var).
+  Proof.
+    intros Hm [Ht Hes] Htf Hfa. cbn [run]. rewrite Hm, Ht, Hes.
+    unfold v_tokens, v_list_element. rewrite Htf, Hfa. reflexivity.
+  Qed.
+  Lemma run_value_item_w f var x :
+    v_mixed var = false -> kind_wild var -> v_tokens_factory var = None -> is_array x = false ->
+    run c u ign (S f) (CValue x var) = run c u ign f (CAnyType x var).
+  Proof.
+    intros Hm [Ht Hes] Htf Hx. cbn [run]. rewrite Hm, Ht, Hes.
+    unfold v_tokens. rewrite Htf, Hx, andb_false_r. reflexivity.
+  Qed.
+  Lemma run_value_list_w f var t l fa :
+    v_mixed var = false -> kind_wild var -> v_tokens_factory var = None -> v_factory var = Some fa ->
+    run c u ign (S f) (CValue (VList t l) var) = concatM (fun x => run c u ign f (CValue x var)) l.
+  Proof.
+    intros Hm [Ht Hes] Htf Hfa. cbn [run]. rewrite Hm, Ht, Hes.
+    unfold v_tokens, v_list_element. rewrite Htf, Hfa. reflexivity.
+  Qed.
+
+  (* a generic element: one unit of fuel per nesting level *)
+  Lemma fits_anyel_inv x : fits_anyel x = true ->
+    exists q s attrs children, x = VAny (Some q) (Some s) None attrs children /\ q <> []
+      /\ NoDup (map fst attrs) /\ forallb any_attr_ok attrs = true
+      /\ (children <> [] -> s = []) /\ forall y, In y children -> fits_anyel y = true.
+  Proof.
+    destruct x as [| | | |q t tl a ch| |]; try discriminate. cbn [fits_anyel].
+    destruct q as [[|c0 q]|]; try discriminate. destruct t as [s|]; try discriminate. destruct tl; try discriminate.
+    intros H. peel H H4. peel H H3. peel H H2.
+    exists (c0 :: q), s, a, ch. split; [reflexivity|]. split; [discriminate|]. split; [apply nodup_by_str; exact H|]. split; [exact H2|].
+    split.
+    - intros Hne. destruct ch; [congruence|]. destruct s; [reflexivity|discriminate H3].
+    - clear H3. induction ch as [|y r IH]; intros z Hz; [destruct Hz|]. apply andb_true_iff in H4 as [Hy Hr].
+      destruct Hz as [<-|Hz]; [exact Hy|apply (IH Hr z Hz)].
+  Qed.
+
+  Lemma run_any var : forall f x, fits_anyel x = true -> (odepth x <= f)%nat ->
+    run c u ign f (CAnyType x var) = Ok (bflat (g_any x)).
+  Proof.
+    induction f as [|f IH]; intros x Hf Hd.
+    - destruct (fits_anyel_inv x Hf) as [q [s [a [ch [-> _]]]]]. cbn [odepth] in Hd. lia.
+    - destruct (fits_anyel_inv x Hf) as [q [s [a [ch [-> [Hq [_ [_ [_ Hch]]]]]]]]].
+      cbn [run g_any].
+      rewrite (concatM_flat _ (fun y => bflat (g_any y))).
+      2:{ intros y Hy. apply IH; [apply Hch; exact Hy|]. pose proof (odepth_anychild (Some q) (Some s) None a ch y Hy). lia. }
+      cbn [gbind]. destruct q as [|c0 q]; [congruence|].
+      cbn [bflat ostr_true]. rewrite !app_nil_r. cbn [app]. f_equal. rewrite map_map. cbn [fst snd].
+      f_equal. cbn [flat_map bflat app]. f_equal. f_equal. rewrite flat_map_map. reflexivity.
+  Qed.
+
   Lemma run_value_text f var x :
     v_mixed var = false -> v_is KText var = true ->
     run c u ign (S f) (CValue x var) = convert_data c u x var.
@@ -1056,15 +1184,24 @@ Section Gen.
   Lemma NoDup_app_r {A} (a b : list A) : NoDup (a ++ b) -> NoDup b.
   Proof. induction a as [|x a IHa]; [auto|]. cbn [app]. intros H. inversion H; auto. Qed.
 
+  Lemma nodup_drop_mid {A} (a b c0 : list A) : NoDup (a ++ b ++ c0) -> NoDup (a ++ c0).
+  Proof.
+    induction a as [|x a IH]; cbn [app]; intros H; [apply (NoDup_app_r b c0 H)|].
+    inversion H as [|? ? Hx Hn]; subst. constructor; [|apply IH; exact Hn].
+    intros Hi. apply Hx. apply in_app_or in Hi as [Hi|Hi]; apply in_or_app; [left; exact Hi|right; apply in_or_app; right; exact Hi].
+  Qed.
   Lemma evars_indices_nodup m : wf_class m = true -> NoDup (map v_index (get_element_vars m)).
   Proof.
     intros Hwc. destruct (wf_class_inv m Hwc) as [F1 F2 F3 F4 F5 F6 F7 F8 F9 F10 F11 F12 F13].
     rewrite (evars_eq m Hwc). apply sort_nodup_map.
     rewrite (allvars_eq m Hwc) in F13.
-    assert (H : NoDup (map v_index (m_any_attributes m ++ map snd (m_attributes m) ++ flat_map snd (m_elements m)
+    assert (H : NoDup (map v_index (m_wildcards m ++ (m_any_attributes m ++ map snd (m_attributes m)) ++ flat_map snd (m_elements m)
                                     ++ match m_text m with Some t => [t] | None => [] end))).
-    { eapply Permutation.Permutation_NoDup; [|exact F13]. apply Permutation.Permutation_map. apply sort_perm. }
-    rewrite map_app in H. apply NoDup_app_r in H. rewrite map_app in H. apply NoDup_app_r in H. exact H.
+    { eapply Permutation.Permutation_NoDup; [|exact F13]. apply Permutation.Permutation_map.
+      rewrite <- (app_assoc (m_any_attributes m)). apply sort_perm. }
+    rewrite !map_app in H. rewrite !map_app. rewrite <- !app_assoc in H.
+    apply (nodup_drop_mid (map v_index (m_wildcards m)) (map v_index (m_any_attributes m) ++ map v_index (map snd (m_attributes m))) _).
+    rewrite <- !app_assoc. exact H.
   Qed.
 
   (* ---------------------------------------------------------------- sequence groups *)
@@ -1442,16 +1579,17 @@ Section Gen.
   Lemma class_pairs cl fs m :
     wf_class m = true -> map fst fs = map v_name (get_all_vars m) ->
     (forall e v, In e (m_elements m) -> In v (snd e) -> v_tokens_factory v = None -> seq_shape v (field_of fs v)) ->
+    (forall wv, is_wildvar m wv -> seq_shape wv (field_of fs wv)) ->
     pairs_spec cl fs m (pairs cl fs m).
   Proof.
-    intros Hwc Hnames Hsh.
+    intros Hwc Hnames Hsh Hshw.
     destruct (m_text m) as [tv|] eqn:Htx.
     - (* a Text field: no sequence group *)
       assert (H : pairs_spec cl fs m (flat_map (emit1 fs) (get_element_vars m))).
       { apply pairs_spec_plain; [exact Hnames| | |apply evars_indices_nodup; exact Hwc].
         - intros var Hv. apply (in_allvars m var Hwc). right; exact Hv.
         - intros var Hin.
-          destruct (wf_class_evar m var Hwc Hin) as [[_ Hi]|[_ [Hwt _]]]; [|apply (wf_text_noseq var Hwt)].
+          destruct (wf_class_evar m var Hwc Hin) as [[_ Hi]|[[_ [Hwt _]]|[_ [_ [_ [_ Hnt]]]]]]; [|apply (wf_text_noseq var Hwt)|congruence].
           destruct (wf_class_inv m Hwc) as [F1 F2 F3 F4 F5 F6 F7 F8 F9 F10 F11 F12 F13].
           rewrite Htx in F11. destruct F11 as [_ Hnoe]. rewrite Hnoe in Hi. destruct Hi. }
       rewrite (pairs_eq _ _ _ _ H). exact H.
@@ -1460,7 +1598,7 @@ Section Gen.
       + apply evars_indices_nodup; exact Hwc.
       + intros var Hv.
         apply (getattr_field cl fs m var Hnames). apply (in_allvars m var Hwc). right; exact Hv.
-      + intros var Hv Ht. destruct (wf_class_evar m var Hwc Hv) as [[_ Hi]|[Ht' _]]; [|congruence].
+      + intros var Hv Ht. destruct (wf_class_evar m var Hwc Hv) as [[_ Hi]|[[Ht' _]|Hwv]]; [|congruence|apply (Hshw var Hwv)].
         apply (Hsh _ var Hi (or_introl eq_refl) Ht).
       + apply (wf_class_spans m Hwc).
       + assert (H : pairs_spec cl fs m out).
@@ -1471,10 +1609,18 @@ Section Gen.
   Lemma class_pairs_fits rec cl fs m :
     wf_class m = true -> map fst fs = map v_name (get_all_vars m) ->
     (forall e v, In e (m_elements m) -> In v (snd e) -> fits_elem rec v (field_of fs v) = true) ->
+    (forall wv, m_wildcards m = [wv] -> fits_wild u m wv (field_of fs wv) = true) ->
     pairs_spec cl fs m (pairs cl fs m).
   Proof.
-    intros Hwc Hn Hfe. apply class_pairs; try assumption.
-    intros e v He Hv Ht. apply (fits_elem_shape rec v _ (Hfe e v He Hv) Ht).
+    intros Hwc Hn Hfe Hfw. apply class_pairs; try assumption.
+    - intros e v He Hv Ht. apply (fits_elem_shape rec v _ (Hfe e v He Hv) Ht).
+    - intros wv [E [Hw _]]. pose proof (Hfw wv E) as Hf. unfold fits_wild in Hf. unfold seq_shape.
+      destruct (v_factory wv).
+      + destruct (field_of fs wv) as [| |t l| | | |]; try discriminate Hf. destruct t; [discriminate Hf|].
+        exists false, l. split; [reflexivity|]. apply Forall_forall. intros y Hy. rewrite forallb_forall in Hf. specialize (Hf y Hy).
+        unfold fits_any_top in Hf. apply andb_true_iff in Hf as [Hf _]. destruct y; try discriminate Hf; exact I.
+      + destruct (field_of fs wv) as [| |t l| | | |]; try exact I.
+        unfold fits_any_top in Hf. apply andb_true_iff in Hf as [Hf _]. discriminate Hf.
   Qed.
 
   Lemma wrap_ok var (r : gres (list wevent)) items :
@@ -1510,7 +1656,9 @@ Section Gen.
           apply (fits_mapvar n cl fs m var Hfit Hm Hav). }
     cbn [gbind].
     (* the field values *)
-    pose proof (class_pairs_fits _ cl fs m Hwc Hnames Hfe) as Hps.
+    assert (Hfw : forall wv, m_wildcards m = [wv] -> fits_wild u m wv (field_of fs wv) = true)
+      by (intros wv Hwv; apply (fits_wildvar n cl fs m wv Hfit Hm Hwv)).
+    pose proof (class_pairs_fits _ cl fs m Hwc Hnames Hfe Hfw) as Hps.
     rewrite (ps_eq _ _ _ _ Hps).
     cbn [gbind].
     (* the content *)
@@ -1522,8 +1670,9 @@ Section Gen.
         clear Hok. destruct Hcase as [Hxn|[-> Hnl]].
         2:{ (* None in a nillable field: <f xsi:nil="true"/> *)
             cbn [g_field]. rewrite Hnl. apply wrap_ok. cbn [g_items]. rewrite Hnl.
-            destruct (wf_class_evar m var Hwc Hvar) as [[Hwe Hine]|[_ [Hwt _]]];
-              [|rewrite (wf_text_nonil var Hwt) in Hnl; discriminate Hnl].
+            destruct (wf_class_evar m var Hwc Hvar) as [[Hwe Hine]|[[_ [Hwt _]]|[_ [Hww _]]]];
+              [|rewrite (wf_text_nonil var Hwt) in Hnl; discriminate Hnl
+               |destruct (wf_wild_inv var Hww) as [_ [_ [Hnn _]]]; congruence].
             destruct (wf_elem_inv var Hwe) as [Hk [Hc _]].
             destruct (var_common_inv var Hc) as [_ [Hmx [Hany _]]].
             assert (Htf : v_tokens_factory var = None).
@@ -1554,7 +1703,49 @@ Section Gen.
             pose proof (odepth_field cl fs (v_name var) _ Hf) as H1. rewrite El in H1.
             pose proof (odepth_item t0 l0 x Hil) as H2. lia. }
         clear Hfield.
-        destruct (wf_class_evar m var Hwc Hvar) as [[Hwe Hine]|[Htx [Hwt Hnoe]]].
+        destruct (wf_class_evar m var Hwc Hvar) as [[Hwe Hine]|[[Htx [Hwt Hnoe]]|Hwv]].
+        3:{ (* the wildcard field: generic elements *)
+            pose proof Hwv as [Ewv [Hww _]].
+            destruct (wf_wild_inv var Hww) as [_ [Hc [_ [_ [_ [Htf [_ [_ [Hkt [_ [Hkes Hfd]]]]]]]]]]].
+            destruct (var_common_w_inv var Hc) as [_ [Hmx _]].
+            assert (Hkw : kind_wild var) by (split; assumption).
+            pose proof (Hfw var Ewv) as Hfv. unfold fits_wild in Hfv.
+            rewrite (g_field_some (gobj n) var x Hxn). apply wrap_ok.
+            unfold g_items. rewrite Hkt, Htf.
+            assert (Hany1 : forall y f', fits_any_top u m var y = true -> (odepth y <= f')%nat ->
+                      run c u ign f' (CAnyType y var) = Ok (bflat (g_item (gobj n) var y))).
+            { intros y f' Hy Hd'. unfold fits_any_top in Hy. apply andb_true_iff in Hy as [Hy _].
+              destruct (fits_anyel_inv y Hy) as [q0 [s0 [a0 [ch0 [Ey _]]]]]. rewrite Ey. cbn [g_item]. rewrite <- Ey.
+              apply run_any; assumption. }
+            destruct Hsrc as [Hw|[f0 [t0 [l0 [Hf0 [_ [_ [El Hil]]]]]]]]; cbn [fst snd] in *.
+            - unfold pair_whole in Hw. cbn [fst snd] in Hw. rewrite <- Hw in Hfv.
+              destruct (v_factory var) as [fa|] eqn:Efa.
+              + destruct x as [| |tt l| | | |]; try discriminate Hfv. destruct tt; [discriminate Hfv|].
+                destruct f as [|f0]; [cbn [odepth] in *; lia|].
+                rewrite (run_value_list_w f0 var false l fa Hmx Hkw Htf Efa). cbn [gbind].
+                rewrite (concatM_flat _ (fun y => bflat (g_item (gobj n) var y))).
+                { rewrite flat_map_map. reflexivity. }
+                intros y Hy. rewrite forallb_forall in Hfv. specialize (Hfv y Hy).
+                assert (Hya : is_array y = false).
+                { unfold fits_any_top in Hfv. apply andb_true_iff in Hfv as [Hfv _]. destruct y; try discriminate Hfv; reflexivity. }
+                destruct f0 as [|f1]; [cbn [odepth] in *; lia|].
+                rewrite (run_value_item_w f1 var y Hmx Hkw Htf Hya).
+                apply Hany1; [exact Hfv|]. pose proof (odepth_item false l y Hy). cbn [odepth] in *. lia.
+              + destruct f as [|f0]; [cbn [odepth] in *; lia|].
+                rewrite (run_value_single_w f0 var x Hmx Hkw Htf Efa).
+                assert (Hfx : fits_any_top u m var x = true) by (destruct x; try exact Hfv; congruence).
+                assert (Ex : match x with VList _ _ => False | _ => True end).
+                { unfold fits_any_top in Hfx. apply andb_true_iff in Hfx as [Hfx _]. destruct x; try discriminate Hfx; exact I. }
+                rewrite (Hany1 x f0 Hfx); [|cbn [odepth] in *; lia].
+                destruct x; try congruence; try destruct Ex; cbn [flat_map]; rewrite ?app_nil_r; reflexivity.
+            - rewrite El in Hfv. rewrite Hf0 in Hfv. destruct t0; [discriminate Hfv|].
+              rewrite forallb_forall in Hfv. specialize (Hfv x Hil).
+              assert (Hya : is_array x = false).
+              { unfold fits_any_top in Hfv. apply andb_true_iff in Hfv as [Hfv _]. destruct x; try discriminate Hfv; reflexivity. }
+              destruct f as [|f0']; [cbn [odepth] in *; lia|].
+              rewrite (run_value_item_w f0' var x Hmx Hkw Htf Hya).
+              rewrite (Hany1 x f0' Hfv); [|cbn [odepth] in *; lia].
+              destruct x; try congruence; try discriminate Hya; cbn [flat_map]; rewrite ?app_nil_r; reflexivity. }
         - (* an element field *)
           destruct (wf_elem_inv var Hwe) as [Hk [Hc Hty]].
           destruct (var_common_inv var Hc) as [_ [Hmx [Hany [_ [_ [_ [_ [_ _]]]]]]]].
@@ -1777,8 +1968,17 @@ Section Gen.
     match e with EElem q ats ks => EElem q (ats ++ xsi_attr_e x) ks | EData a => EData a end.
   Lemma add_xsi_e_none e : add_xsi_e None e = e.
   Proof. destruct e; [reflexivity|]. cbn [add_xsi_e xsi_attr_e]. rewrite app_nil_r. reflexivity. Qed.
+  Fixpoint e_any (x : value) : XmlNs.enode :=
+    match x with
+    | VAny (Some q) text _ attrs children =>
+        EElem (Bind.split_qname q) (map (fun kv => (Bind.split_qname (fst kv), [AText (snd kv)])) attrs)
+              ((match text with Some ((_ :: _) as t) => [EData [AText t]] | _ => [] end) ++ map e_any children)
+    | _ => EData []
+    end.
+
   Definition e_item (rec : option qname -> value -> XmlNs.enode) (var : xvar) (x : value) : XmlNs.enode :=
     match x with
+    | VAny _ _ _ _ _ => e_any x
     | VObj k' _ => add_xsi_e (xsi_for var k') (rec (Some (v_qname var)) x)
     | _ => e_prim var x
     end.
